@@ -291,7 +291,8 @@ Definition run_pipe (c : (list Z * list (list Z)) * list Z) : list Z :=
 
 (* channel level, sequential: every operation runs to completion
    0/1 feed stdout non-empty/empty   2/3 feed stderr non-empty/empty   4/5 read all of stdout/stderr
-   6 partial read (no event call)    7/8 empty() on stdout/stderr      9 EOF or remote close *)
+   6 partial read (no event call)    7/8 empty() on stdout/stderr      9 EOF or remote close
+   10 set_combine_stderr(True) with stderr data: in_stderr_buffer.empty() then the data fed to stdout *)
 Definition finish_pending (l : label) (s : st) : option st :=
   if or_free s then Some s else step s l.
 
@@ -303,6 +304,11 @@ Definition chan_op (s : st) (c : Z) : option st :=
   else if c =? 5 then (if ne2 s then app (ReadAll true) else Some s)
   else if c =? 6 then Some s
   else if c =? 7 then app (Empty false) else if c =? 8 then app (Empty true)
+  else if c =? 10 then
+    match app (Empty true) with
+    | Some s' => match step s' (Feed false true) with Some s'' => finish_pending Finish s'' | None => None end
+    | None => None
+    end
   else
     match step s ChanBegin with
     | None => None
